@@ -75,9 +75,22 @@ The states are listed in the order of the standard, which is not the order of th
 
 ## Idiosyncrasies of the Rust table that are reproduced although the rules above would not produce them
 
-See the `-- I<n>:` comments at the arms; each is behaviourally equivalent to the rule-generated arm
-(the list, with reasons, is in docs/pkg-ref.md). They were found by `tableDiffWitness` against a
-first, purely rule-generated version of this file.
+Marked `-- I<n>:` at the arms. Each is behaviourally equivalent to the arm the rules give; replacing
+them by the rule-generated arms makes `tableDiffWitness` list exactly these arms (checked once, see
+docs/pkg-ref.md), i.e. they are the complete set of places where the code is not "standard + rules":
+
+* I1 `tag_open` on `?`: `-->` bogus comment instead of `reconsume in` (the byte is not `>`).
+* I2 `script_data_(double_)escaped_dash_dash` on `>`: `emit_text?; reconsume in script_data` instead of
+  `--> script_data` (`>` is plain text there; one more text-lexeme cut).
+* I3 `script_data_double_escaped` on `<`: `emit_text?` although no tag can follow (and the dash-dash
+  sibling state does not do it); one more text-lexeme cut.
+* I4 `create_comment` for `<!--` is an enter action of `comment_start` instead of an action of the `--` arm.
+* I5 redundant `mark_comment_text_end` in `comment` (`_`), all arms of `comment_less_than_sign`, and the
+  non-`-` arms of `comment_less_than_sign_bang`: every path to an emission re-marks the end.
+* I6 `doctype` on `>`: the `>` arm of `before_doctype_name` inlined instead of `reconsume in`.
+* I7 "reconsume in bogus DOCTYPE" rendered as `-->` (the byte is never `>` on these arms).
+* I8 redundant `shift_comment_text_end_by` on the `_` arms of `comment_end` / `comment_end_bang` (the
+  comment state re-marks the end before any emission).
 -/
 namespace LolHtml.Ref.Syntax
 open LolHtml.Model
@@ -609,7 +622,7 @@ def commentEnd : StateDef :=
       -- "-": append "-" to the data
       ⟨.byte cDash, stay [.shiftCommentTextEndBy 1]⟩,
       ⟨.eof, stay [.emitCurrentTokenAndEof]⟩,
-      -- anything else: append "--"; reconsume in the comment state
+      -- anything else: append "--"; reconsume in the comment state (I8)
       ⟨.any, re [.shiftCommentTextEndBy 2] S.comment⟩ ] }
 
 /-- 13.2.5.52 Comment end bang state -/
@@ -621,7 +634,7 @@ def commentEndBang : StateDef :=
       -- ">": incorrectly-closed-comment; switch to data; emit
       ⟨.byte cGt, to [.emitCurrentToken] S.data⟩,
       ⟨.eof, stay [.emitCurrentTokenAndEof]⟩,
-      -- anything else: append "--!"; reconsume in the comment state
+      -- anything else: append "--!"; reconsume in the comment state (I8)
       ⟨.any, re [.shiftCommentTextEndBy 3] S.comment⟩ ] }
 
 /-- "create a DOCTYPE token, set its force-quirks flag, emit it" -/
